@@ -17,7 +17,11 @@
 #ifndef KSI_TLV_MAX_SIZE
 #error the instance must define KSI_TLV_MAX_SIZE (small reassembly buffer)
 #endif
+enum { C14_INSTANCE_MAX = KSI_TLV_MAX_SIZE };
 #include "net_tcp_async.c"
+/* without the source hook (harness/C14/hook.diff) the file redefines KSI_TLV_MAX_SIZE to 0xffff + 4 and the
+ * 131 078-byte buffer cannot be analysed: stop at build time instead of running out of memory */
+_Static_assert(sizeof(((TcpAsyncCtx *)0)->inBuf) == 2 * (size_t)C14_INSTANCE_MAX, "C14: source hook harness/C14/hook.diff is not applied to net_tcp_async.c");
 
 /* net_tcp_async.c's request queue type; types.c (which instantiates it in the library) is not linked */
 unsigned VERIF_handle_destroyed;
